@@ -57,11 +57,13 @@ def build(rng, lazy, corpus=None):
         return ga_, maps_
     if clash:
         ga, maps = add_grid()
-    for name, rank in (("x", rng.randint(1, 3)), ("f", rng.randint(1, 3)), ("w", 2)):
+    # (names that are not plain identifiers are variable names, too: a hyphen, a leading digit, a blank - quoted in ids)
+    odd = rng.choice(["t-2m", "2m_temp", "my var"])
+    for name, rank in (("x", rng.randint(1, 3)), ("f", rng.randint(1, 3)), ("w", 2), (odd, rng.randint(1, 2))):
         shape = tuple(rng.randint(1, 4) for _ in range(rank))
         dt = rng.choice(["i4", "f8", "i2", "f4", "u1"])
         a = (np.arange(int(np.prod(shape))) * rng.choice([1, 3, -2]) + rng.randint(-5, 5)).astype(dt).reshape(shape)
-        dims = tuple("%s_d%d" % (name, k) for k in range(rank)) if rng.random() < 0.6 else ()
+        dims = tuple("%s_d%d" % (name.replace(" ", "_"), k) for k in range(rank)) if rng.random() < 0.6 else ()
         if dims and rank >= 2 and rng.random() < 0.35:
             # two axes over the same dimension (a covariance-like array): removing one axis must not remove its namesake
             i1, i2 = sorted(rng.sample(range(rank), 2))
@@ -73,7 +75,7 @@ def build(rng, lazy, corpus=None):
         if rng.random() < 0.4:
             fattrs[rng.choice(["_FillValue", "missing_value"])] = a.reshape(-1)[rng.randrange(a.size)].item()
         ds[name] = BaseType(name, a, dims=dims, **fattrs)
-        arrays[name] = (a, dims)
+        arrays[ds[name].name] = (a, dims)          # (the name as requests spell it: my%20var)
     if not clash:
         ga, maps = add_grid()
     st = StructureType("st")
@@ -358,14 +360,20 @@ def main():
                     lo, hi = rng.choice([(0, 360), (-90, 90), (-180, 180), (0, 359)])     # the extents a GrADS client sends
                 if bi == 0 and ax in "XY":
                     lo, hi = {"X": (0, 360), "Y": (-90, 90)}[ax]      # the whole globe - which some records may lie beyond
+                if rng.random() < 0.3:
+                    # fractional ends (also on integer-typed columns: 0.5 <= X keeps 1, not 0)
+                    lo, hi = lo + rng.choice([0.5, 0.25, -0.5, 0]), hi + rng.choice([0.5, 0.75, 0])
                 b[ax] = (lo, hi)
+            if i >= 2 and bi == 5:
+                # scripted: an interval with fractional ends around stored whole numbers
+                b = {"X": (4.5, 10.5), "Y": (0.25, 30), "Z": (-0.5, 25.75)}
             if i < 2 and bi in (1, 2, 3):
                 # the corpus tables are asked with intervals that are degenerate on one axis
                 b = {"X": (10, 10) if bi == 1 else (0, 30), "Y": (15, 15) if bi == 2 else (0, 30), "Z": (5, 5) if bi == 3 else (0, 30)}
             stats["bounds_calls"] += 1
             stats["lazy_bounds"] += lazy
             stats["degenerate_bounds"] += any(lo == hi for lo, hi in b.values())
-            call = "bounds(%d,%d,%d,%d,%d,%d,0,0)" % (b["X"] + b["Y"] + b["Z"])
+            call = "bounds(%s,%s,%s,%s,%s,%s,0,0)" % tuple(repr(v_) for v_ in (b["X"] + b["Y"] + b["Z"]))
             proj = rng.choice(["loc", "", "loc.t", "loc." + rng.choice(colnames) + ",loc.t"])
             # the call in selection position (after '&') or in projection position (one more item of the projection list)
             sep = rng.choice(["&", ","]) if proj else ""
@@ -377,7 +385,7 @@ def main():
             want_rows = [r_ for r_ in rows if all(b[ax][0] <= r_[j] <= b[ax][1] for j, ax in axis_cols)]
             axes_in_col_order = sorted((j, b[ax][0], b[ax][1]) for j, ax in axis_cols)
             bounds_cases.append("(%s, %s, %s)" % (
-                clist(axes_in_col_order, lambda t: "(%d%%nat, (%d)%%Z, (%d)%%Z)" % (t[0], t[1] * SC, t[2] * SC)),
+                clist(axes_in_col_order, lambda t: "(%d%%nat, (%d)%%Z, (%d)%%Z)" % (t[0], round(t[1] * SC), round(t[2] * SC))),
                 clist(rows, lambda r_: clist(list(r_), lambda v: "(%d)%%Z" % round(v * SC))),
                 clist(want_rows, lambda r_: clist(list(r_), lambda v: "(%d)%%Z" % round(v * SC)))))
             try:
